@@ -334,6 +334,11 @@ TEMPLATES = [
     "{x}[_, _]",
     "{x}[{v}]",
     "{x}[{v}, _]",
+    "{x}[0]",
+    "_[0]",
+    "_[{v}]",
+    "{x}[{v}, 0]",
+    "{x}[0, _]",
     "_[_]",
     "{x}",
     "{v}",
